@@ -31,6 +31,7 @@ def run(ctx):
     ident_rule(ctx, syn)
     add_rule(ctx, syn)
     nocase_rule(ctx)
+    sortkey_rule(ctx)
     from props.c07 import window_rule
     window_rule(ctx, syn, rid="C08.WINDOW")   # a TEXT constraint is answered by this search iterator: what it skips, the query misses
 
@@ -645,3 +646,35 @@ def nocase_rule(ctx):
             if not any(x.endswith("to_lowercase") or x.endswith("to_ascii_lowercase") for x in prov):
                 ctx.report(r, bid, "%s filters case-insensitively with filter_text_byref on a reference text that is not lower-cased (derives from %s): `TEXT AS NOCASE \"Hello\"` matches as first constraint and nothing as a later one" % (bid, prov[:3]), b.file, t.get("line"))
     r.notes.append("filter_text_byref call sites: %d" % n)
+
+
+# ---------------------------------------------------------------------- SORTKEY
+def sortkey_rule(ctx, rid="C08.SORTKEY"):
+    """textual_order() makes results unique by sorting and then dropping *adjacent* equal items.  That only works if
+    equal items end up next to each other, i.e. if the comparator looks at everything equality looks at.  Two
+    ResultTextSelections are equal only in the same resource, so the comparator of their textual_order has to order by
+    the resource as well (after the offsets): otherwise r1:0-5, r2:0-5, r1:0-5 stays as it is and SELECT TEXT returns
+    r1:0-5 twice."""
+    import mirq
+    r = ctx.rule(rid, "the comparator that textual_order() of ResultTextSelection sorts with (before dedup) also orders by the resource, which equality of ResultTextSelection takes into account")
+    prog = mirq.Program(ctx.facts.mir())
+    outer = prog.find_bodies(r"^<I as api::textselection::SortTextualOrder<textselection::ResultTextSelection<'store>>>::textual_order$")
+    clos = prog.find_bodies(r"^<I as api::textselection::SortTextualOrder<textselection::ResultTextSelection<'store>>>::textual_order(::\{closure#\d+\})+$")
+    if len(outer) != 1 or not clos:
+        ctx.anchor_missing(r, "SortTextualOrder<ResultTextSelection>::textual_order and its comparator")
+        return
+    b = outer[0]
+    ctx.functions_analysed.add(b.id)
+    dedups = [t for _, t in b.calls() if (mirq.callee_of(t)[0] or "").endswith("::dedup") or (mirq.callee_of(t)[0] or "").endswith("::dedup_by") or (mirq.callee_of(t)[0] or "").endswith("::dedup_by_key")]
+    eq = prog.find_bodies(r"^<textselection::ResultTextSelection<'store> as std::cmp::PartialEq>::eq$")
+    eq_looks_at_resource = bool(eq) and any(re.search(r"::(store|resource|rootstore)$", mirq.callee_of(t)[0] or "") for _, t in eq[0].calls())
+    callees = sorted(set(mirq.callee_of(t)[0] or "?" for c in clos for _, t in c.calls()))
+    # a helper the comparator delegates to counts as well (one level)
+    deep = set(callees)
+    for cal in callees:
+        for hb in prog.find_bodies("^" + re.escape(cal) + "$"):
+            deep |= set(mirq.callee_of(t)[0] or "?" for _, t in hb.calls())
+    by_resource = any(re.search(r"::(resource|store)$", c_) for c_ in deep)
+    r.hit("comparator", sample={"comparator_calls": [mirq.short_fn(c_) for c_ in callees], "dedup_after_sort": len(dedups), "equality_looks_at_resource": eq_looks_at_resource})
+    if dedups and eq_looks_at_resource and not by_resource:
+        ctx.report(r, "comparator-ignores-resource", "textual_order() of ResultTextSelection sorts with a comparator that never looks at the resource (%s) and then calls dedup(): selections with the same offsets in different resources compare as equal-for-sorting, so two equal selections of one resource can end up apart and both survive - a query for TEXT returns the same text selection more than once" % ", ".join(mirq.short_fn(c_) for c_ in callees), b.file, b.line)
